@@ -3,6 +3,7 @@ from __future__ import annotations
 
 import copy
 import itertools
+import re
 
 import z3
 
@@ -98,12 +99,12 @@ def skeletons(tier):
                                                  ("c", "id2", ("f32",)), ("d", "id3", ("enum", "E"))])],
                                 enums=E, impls=can)))
     out.append(("nested", Schema(structs=[In, ("S", [("a", "id0", ("u", "w0")), ("b", "id1", ("struct", "In")),
-                                                      ("c", "id2", ("arr", ("i", "w1"), 2)),
+                                                      ("c", "id2", ("arr", ("i", "w1"), 3)),
                                                       ("d", "id3", ("enum", "E"))])], enums=E, impls=can)))
     out.append(("arrays", Schema(structs=[("In", [("p", 0, ("u", 5)), ("q", 1, ("i", "w0"))]),
                                           ("S", [("a", "id0", ("arr", ("struct", "In"), 2)),
-                                                 ("b", "id1", ("arr", ("arr", ("u", 3), 2), 2)),
-                                                 ("c", "id2", ("f64",))])], impls=can)))
+                                                 ("b", "id1", ("arr", ("arr", ("u", 3), 3), 2)),
+                                                 ("c", "id2", ("f64",)), ("d", 7, ("arr", ("u", "w0"), 1))])], impls=can)))
     out.append(("deep", Schema(structs=[("B", [("z", "id3", ("u", "w0")), ("z2", "id4", ("f32",))]),
                                         ("A", [("y", "id1", ("struct", "B")), ("k", "id2", ("i", "w1"))]),
                                         ("S", [("x", 1, ("struct", "A")), ("t", 0, ("u", 1))])], impls=can)))
@@ -112,7 +113,7 @@ def skeletons(tier):
     sig = [("f1", {"endianess": "big", "mux_count": 4, "mux_signal": "f0"})]
     out.append(("options", Schema(structs=[("In", [("f1", 0, ("u", 3)), ("h", 1, ("u", 2))]),
                                            ("S", [("f0", "id0", ("u", 8)), ("f1", "id1", ("u", 16)),
-                                                  ("f2", "id2", ("arr", ("u", 4), 2)), ("g", "id3", ("struct", "In"))])],
+                                                  ("f2", "id2", ("arr", ("u", 4), 1)), ("g", "id3", ("struct", "In"))])],
                                   impls=[("can", "S", None, {"id": 1}, sig)])))
     if tier == "thorough":
         out.append(("wide", Schema(structs=[("S", [(f"f{i}", f"id{i}", ("u" if i % 2 else "i", f"w{i % 3}"))
@@ -163,7 +164,8 @@ def _bitlen_expr(e):
 def c04_case(args):
     name, skel, unroll, tier = args
     encoding = _setup()
-    from fcp.encoding import make_encoder, PackedEncoderContext
+    from fcp.encoding import make_encoder, PackedEncoderContext, Value
+    from fcp.specs.type import UnsignedType
 
     res = new_result()
     known = Known("C04")
@@ -203,7 +205,7 @@ def c04_case(args):
         enc = make_encoder("packed", fcp, PackedEncoderContext().with_unroll_arrays(unroll))
         # arbitrary pre-state of the reused encoder (one inductive step covers every call history)
         enc.bitstart = pre_bitstart
-        enc.encoding = ["<stale piece from an earlier generate()>"]
+        enc.encoding = [Value("stale_piece_of_an_earlier_generate", UnsignedType("u8"), 0, 8)]
         before = [(s.name, [(f.name, id(f.type)) for f in s.fields]) for s in fcp.structs]
         out = enc.generate(impl)
         after = [(s.name, [(f.name, id(f.type)) for f in s.fields]) for s in fcp.structs]
@@ -242,7 +244,9 @@ def c04_case(args):
             conc = concretize_skel(skel, asg)
             ref = leaf_list(conc, "S", unroll)
             names = [str(v.name) for v in values]
-            if names != [r_[0] for r_ in ref] or not unchanged:
+            norm = lambda n: re.sub(r"[^0-9A-Za-z]+", "_", n)
+            # names: pairwise distinct, and (up to the separator spelling) the hierarchical reference names in order
+            if [norm(n) for n in names] != [norm(r_[0]) for r_ in ref] or len(set(names)) != len(names) or not unchanged:
                 what = (f"leaf names/order {names} != reference {[r_[0] for r_ in ref]}" if unchanged
                         else "generate() mutated the schema tree")
                 decide(eng, pc, z3.BoolVal(True), prop="C04", ob_id=ob + "|order", res=res, known=known,
@@ -266,12 +270,18 @@ def c04_case(args):
             sigs = {s: kv for s, kv in (skel.impls[0][4] if skel.impls else [])}
             bad = []
             for v, (hn, bn, t, w) in zip(values, skel_ref):
-                leafname = hn.split("::")[-1]
-                exp = sigs.get(leafname, {})
                 got = dict(v.extended_data)
-                exp_end = exp.get("endianess") or "little"
-                if got != exp or v.endianess != exp_end:
-                    bad.append((hn, got, v.endianess, exp, exp_end))
+                top_level = "::" not in hn
+                leafname = hn.split("::")[-1]
+                own = sigs.get(leafname) if leafname == bn else None   # unrolled elements carry a derived name
+                allowed = [{}]
+                if own is not None:
+                    allowed = [own] if top_level else [own, {}]   # equally named nested field: either is fine
+                elif bn in sigs:
+                    allowed = [sigs[bn], {}]                      # element of an unrolled array field: either
+                ok = any(got == a and v.endianess == (a.get("endianess") or "little") for a in allowed)
+                if not ok:
+                    bad.append((hn, got, v.endianess, allowed))
             if bad:
                 decide(eng, pc, z3.BoolVal(True), prop="C04", ob_id=ob + "|options", res=res, known=known,
                        features=feats, env=env_of(), make_replay=mk,
